@@ -85,6 +85,9 @@ def generate(rng, tier, idx):
         o = {"op": "img_new", "iid": i, "attrs": img}
         if foreign_parent and rng.random() < 0.7:
             o["parent_slot"] = pick(rng, [5, 5, None])
+        if rng.random() < 0.25:
+            # the caller never ASSIGNS the containers: the image's own defaults are filled in place
+            o["inplace"] = [f for f in ("checksums", "additional_variants") if rng.random() < 0.7]
         ops.append(o)
     path = "/sim/d/images.json"
     variants = ["Server", "Client"]
